@@ -35,3 +35,5 @@ if ob_pat:
 if os.environ.get('LIST'):
     for ob in eng.obligations:
         print(ob.id, ob.expect, ob.note[:60], '|', ob.goal.s[:200])
+from pyvc import solve as _s
+print('quick_sat stats', {k: (v[0], round(v[1], 1)) for k, v in _s.QS_STATS.items()})
